@@ -4,7 +4,7 @@ From Coq Require Import String.
 From Cel.Model Require Export Ast.
 
 (** The Rust types a function parameter can be declared with (magic.rs impl_conversions). *)
-Inductive vty := TInt | TUInt | TDbl | TStr | TBytes | TBool | TList | TDur | TTs | TValue.
+Inductive vty := TyInt | TyUInt | TyDbl | TyStr | TyBytes | TyBool | TyList | TyDur | TyTs | TyValue.
 
 (** Extractors (magic.rs): This<T>, This<Option<T>>, positional T, positional Option<T>,
     Arguments, Identifier, Expression. *)
@@ -71,30 +71,30 @@ Definition add_function (c : ctx) (f : str) (d : fdef) : ctx :=
 (** Context::default(): the built-ins with their extractor signatures (functions.rs). *)
 Definition bi (ps : list extractor) (b : builtin) : fdef := {| params := ps; body := FBuiltin b |}.
 Definition default_funs : list (str * fdef) :=
-  [($"contains", bi [XThis TValue; XArg TValue] FContains);
-   ($"size", bi [XThis TValue] FSize);
+  [($"contains", bi [XThis TyValue; XArg TyValue] FContains);
+   ($"size", bi [XThis TyValue] FSize);
    ($"max", bi [XArgs] FMax);
    ($"min", bi [XArgs] FMin);
-   ($"startsWith", bi [XThis TStr; XArg TStr] FStartsWith);
-   ($"endsWith", bi [XThis TStr; XArg TStr] FEndsWith);
-   ($"string", bi [XThis TValue] FString);
-   ($"bytes", bi [XArg TStr] FBytes);
-   ($"double", bi [XThis TValue] FDouble);
-   ($"int", bi [XThis TValue] FInt);
-   ($"uint", bi [XThis TValue] FUint);
-   ($"matches", bi [XThis TStr; XArg TStr] FMatches);
-   ($"duration", bi [XArg TStr] FDuration);
-   ($"timestamp", bi [XArg TStr] FTimestamp);
-   ($"getFullYear", bi [XThis TTs] FGetFullYear);
-   ($"getMonth", bi [XThis TTs] FGetMonth);
-   ($"getDayOfYear", bi [XThis TTs] FGetDayOfYear);
-   ($"getDayOfMonth", bi [XThis TTs] FGetDayOfMonth);
-   ($"getDate", bi [XThis TTs] FGetDate);
-   ($"getDayOfWeek", bi [XThis TTs] FGetDayOfWeek);
-   ($"getHours", bi [XThis TTs] FGetHours);
-   ($"getMinutes", bi [XThis TTs] FGetMinutes);
-   ($"getSeconds", bi [XThis TTs] FGetSeconds);
-   ($"getMilliseconds", bi [XThis TTs] FGetMilliseconds)].
+   ($"startsWith", bi [XThis TyStr; XArg TyStr] FStartsWith);
+   ($"endsWith", bi [XThis TyStr; XArg TyStr] FEndsWith);
+   ($"string", bi [XThis TyValue] FString);
+   ($"bytes", bi [XArg TyStr] FBytes);
+   ($"double", bi [XThis TyValue] FDouble);
+   ($"int", bi [XThis TyValue] FInt);
+   ($"uint", bi [XThis TyValue] FUint);
+   ($"matches", bi [XThis TyStr; XArg TyStr] FMatches);
+   ($"duration", bi [XArg TyStr] FDuration);
+   ($"timestamp", bi [XArg TyStr] FTimestamp);
+   ($"getFullYear", bi [XThis TyTs] FGetFullYear);
+   ($"getMonth", bi [XThis TyTs] FGetMonth);
+   ($"getDayOfYear", bi [XThis TyTs] FGetDayOfYear);
+   ($"getDayOfMonth", bi [XThis TyTs] FGetDayOfMonth);
+   ($"getDate", bi [XThis TyTs] FGetDate);
+   ($"getDayOfWeek", bi [XThis TyTs] FGetDayOfWeek);
+   ($"getHours", bi [XThis TyTs] FGetHours);
+   ($"getMinutes", bi [XThis TyTs] FGetMinutes);
+   ($"getSeconds", bi [XThis TyTs] FGetSeconds);
+   ($"getMilliseconds", bi [XThis TyTs] FGetMilliseconds)].
 
 Definition default_ctx : ctx := {| funs := default_funs; scopes := [[]] |}.
 
